@@ -16,7 +16,7 @@ pub fn run(ctx: &Ctx) {
     ctx.explore(
         "shell-decisions",
         "client datagrams through the real handle_srt_packet on a real shell (1..4 links over loopback) whose link states come from real packets through handle_uplink_packet (REG_ERR, REG3, REG_NGP, control, keepalive echoes, SRTLA ACKs, NAKs), real housekeeping, clock steps around the timeouts and the housekeeping arm's stamping writes; a datagram may be refused only when no link is usable; non-trivial = a decision where every usable link has a gate engaged or another link is unusable",
-        ctx.tier.pick(6_000, 150_000),
+        ctx.tier.pick(20_000, 250_000),
         || decide::strategy(mo),
         |_| |c: &decide::Case, o: &mut Obs| decide::check(c, o, Which::C03, ctx),
     );
